@@ -304,6 +304,11 @@ func mutexLock(fr *frame, a []value) value {
 	if m.owner == i.sched.cur {
 		panic(pathAbort{"deadlock: mutex locked twice by the same goroutine at " + i.where()})
 	}
+	if i.world.yieldOnLock && i.sched.cur != i.sched.main {
+		// adversarial schedule: a goroutine about to take a lock lets every
+		// other runnable goroutine run first
+		i.yield()
+	}
 	i.waitUntil("mutex", func() bool { return m.owner == nil && m.readers == 0 })
 	m.owner = i.sched.cur
 	return nil
